@@ -68,12 +68,42 @@ def run(R):
     g = PR.discr_guard(f, nx[0], "Some")
     header, body = PR.loop_of(f, nx[0].bb)
     inloop = set(b for b in pl if b in body)
-    # writes of first_line: assignments, or mem::replace/take through a &mut borrow of the field
-    wr = [(i, s, s["rv"]["op"].get("v") if s["rv"]["k"] == "use" and s["rv"]["op"]["k"] == "const" else None)
-          for i, s in f.stmts() if s["k"] == "assign" and "first_line" in place_fields(s["pl"]) and s["pl"]["l"] == 1]
+    # the header state: the field of the printer (a bool, or an enum of unit variants such as `HeaderState::{Pending, Emitted}`) that
+    # print() itself writes - found by that role, whatever it is called
+    padt = P.adts.get(re.sub(r"<.*$", "", (f0.impl_self or "")))
+    SF = "first_line"
+    unit_enum = lambda ty: (ty in P.adts and len(P.adts[ty]["variants"]) > 1 and all(not v["fields"] for v in P.adts[ty]["variants"]))
+    if padt is not None:
+        cands = []
+        for fl_ in padt["variants"][0]["fields"]:
+            if fl_["ty"] == "bool" or unit_enum(fl_["ty"]):
+                written = any(s["k"] == "assign" and fl_["name"] in place_fields(s["pl"]) and s["pl"]["l"] == 1 for i, s in f.stmts()) or \
+                    any(re.search(r"^core::mem::(replace|take|swap)$", short(c.name)) and c.args and fl_["name"] in F.source_fields(f, c.args[0]) for c in f.calls)
+                if written:
+                    cands.append(fl_["name"])
+        if len(cands) == 1:
+            SF = cands[0]
+
+    def wval(op_or_stmt):
+        """the constant a write stores: 'true' / 'false' or the variant name"""
+        rv_ = op_or_stmt
+        if rv_["k"] == "use" and rv_["op"]["k"] == "const":
+            v_ = rv_["op"].get("v")
+            m_ = re.search(r"::(\w+)$", str(v_)) if v_ not in ("true", "false") else None
+            return m_.group(1) if m_ else v_
+        if rv_["k"] == "aggr" and rv_.get("variant") and not rv_["ops"]:
+            return rv_["variant"]
+        if rv_["k"] == "use" and rv_["op"]["k"] in ("copy", "move") and not rv_["op"]["pl"]["p"]:
+            ds = [d for j, d in f.stmts() if d["k"] == "assign" and d["pl"]["l"] == rv_["op"]["pl"]["l"] and not d["pl"]["p"]]
+            if len(ds) == 1:
+                return wval(ds[0]["rv"])
+        return None
+    # writes of the state field: assignments, or mem::replace/take through a &mut borrow of the field
+    wr = [(i, s, wval(s["rv"]))
+          for i, s in f.stmts() if s["k"] == "assign" and SF in place_fields(s["pl"]) and s["pl"]["l"] == 1]
     for c in f.calls:
         if re.search(r"^core::mem::(replace|take|swap)$", short(c.name)) and c.args:
-            if "first_line" in F.source_fields(f, c.args[0]):
+            if SF in F.source_fields(f, c.args[0]):
                 v = c.args[1].get("v") if short(c.name).endswith("replace") and len(c.args) > 1 and c.args[1]["k"] == "const" else \
                     ("false" if short(c.name).endswith("take") else None)
                 wr.append((c.bb, {"line": c.term["span"]["line"]}, v))
@@ -82,9 +112,28 @@ def run(R):
         R.violation("C17.header", "print|first_line-cleared-outside-rows",
                     "first_line is cleared outside the per-row path of print (line %d): a result with no rows consumes the CSV header, so a later "
                     "first record is printed without it" % outside[0][1]["line"], ["%s:%d" % (f.file, outside[0][1]["line"])])
-    # first_line true edge
+    # what the constructor puts into the state field
+    init = None
+    for fn2 in P.fns.values():
+        if fn2.target != "lib" or fn2.key == f.key:
+            continue
+        for i, s in fn2.stmts():
+            if s["k"] == "assign" and s["rv"]["k"] == "aggr" and s["rv"].get("variant") == "OutputPrinter":
+                fields = s["rv"].get("fields", [])
+                if SF in fields:
+                    op_ = s["rv"]["ops"][fields.index(SF)]
+                    if op_.get("k") == "const":
+                        v_ = op_.get("v")
+                        m_ = re.search(r"::(\w+)$", str(v_)) if v_ not in ("true", "false") else None
+                        init = m_.group(1) if m_ else v_
+                    elif op_.get("k") in ("copy", "move") and not op_["pl"]["p"]:
+                        ds = [d for j, d in fn2.stmts() if d["k"] == "assign" and d["pl"]["l"] == op_["pl"]["l"] and not d["pl"]["p"] and d["rv"]["k"] == "aggr"]
+                        if len(ds) == 1 and not ds[0]["rv"]["ops"]:
+                            init = ds[0]["rv"].get("variant")
+    # tests of the state field; the header edge is the one taken for the constructor's value
     fl_sw = []
-    for (bb, s) in PR.field_reads(f, "first_line"):
+    hdr_edge = {}
+    for (bb, s) in PR.field_reads(f, SF):
         if isinstance(s, dict) and s.get("switch"):
             fl_sw.append(bb)
             continue
@@ -93,6 +142,14 @@ def run(R):
             t = f.blocks[sw]["term"]
             if t["k"] == "switch" and t["discr"]["k"] in ("copy", "move") and t["discr"]["pl"]["l"] == l and not t["discr"]["pl"]["p"]:
                 fl_sw.append(sw)
+                if s["rv"]["k"] == "discr" and init not in (None, "true", "false"):
+                    names_ = dict((dv, n_) for dv, n_ in s["rv"].get("variants", []))
+                    labs = [lab for lab, n_ in names_.items() if n_ == init]
+                    tg = dict((v_, b_) for v_, b_ in t["targets"])
+                    if labs and labs[0] in tg:
+                        hdr_edge[sw] = tg[labs[0]]
+                    elif labs:
+                        hdr_edge[sw] = t["otherwise"]
     fl_sw = sorted(set(fl_sw))
     if not fl_sw:
         R.violation("C17.header", "print|first_line-tests", "first_line is never tested in print: no format prints its header line", [f.loc()])
@@ -101,7 +158,7 @@ def run(R):
     # own): on its true edge a header and the record are printed (0 + 2), on all other paths exactly one record
     true_edges = {}
     for sw in fl_sw:
-        true_edges[sw] = f.blocks[sw]["term"]["otherwise"]
+        true_edges[sw] = hdr_edge.get(sw, f.blocks[sw]["term"]["otherwise"])
     r1 = count_range(f, g[1], {header}, inloop, avoid_edges=set(true_edges.items()))
     bad_hdr = []
     for sw, true_t in sorted(true_edges.items()):
@@ -182,18 +239,15 @@ def run(R):
     # header typestate
     vals = set(v for i, s_, v in wr)
     good, bad = PR.all_paths_hit(f, g[1], [i for i, s_, v in wr], stop_blocks={header})
-    ctor_true = False
+    ctor_true = init is not None and init != "false"
     for fn2 in P.fns.values():
         if fn2.target != "lib" or fn2.key == f.key:
             continue
         for i, s in fn2.stmts():
-            if s["k"] == "assign" and s["rv"]["k"] == "aggr" and s["rv"].get("variant") == "OutputPrinter":
-                fields = s["rv"].get("fields", [])
-                if "first_line" in fields and s["rv"]["ops"][fields.index("first_line")].get("v") == "true":
-                    ctor_true = True
-            if s["k"] == "assign" and "first_line" in place_fields(s["pl"]) and fn2.key != f.key:
+            if s["k"] == "assign" and SF in place_fields(s["pl"]) and fn2.key != f.key and (f0.impl_self or "x") in (fn2.impl_self or ""):
                 R.violation("C17.header", "writer|" + fn2.spath, "first_line is written outside OutputPrinter::print", ["%s:%d" % (fn2.file, s["line"])])
-    if vals == {"false"} and good and ctor_true:
+    cleared = (vals == {"false"}) if init == "true" else (len(vals) == 1 and None not in vals and init not in vals)
+    if cleared and good and ctor_true:
         R.ok("C17.header", "print|first_line", "true from the constructor; false on every path through the row loop", f.loc())
     else:
         R.violation("C17.header", "print|first_line", "first_line handling: values written in print = %s, cleared on every row path = %s, "
